@@ -32,6 +32,12 @@ CHECKS = {
  "C20": (EX, "bounded-exhaustive enumeration of expectation scripts x message counts x partitioners x configs through the real mocks (async/concurrent cases in synctest bubbles with every sender interleaving), against an independent reference mock",
          "Every expectation script of length <=3 (quick) / <=4 (thorough) x 0..len+1 messages x partitioners x topic configs x Return flags for async, sync (every SendMessage/SendMessages split) and two concurrent senders (all interleavings); consumer yield scripts over <=2 partitions with every close order; exact ErrorReporter call multiset.",
          "behaviour the mocks' documentation leaves open (first offset value, offsets after an error expectation, ...) is not judged; listed in the evidence assumptions.", "§6 C20"),
+ "C03": (MC, GXT + " + bounded-exhaustive enumeration of log layouts through the real consumer",
+         "Layout layer: every log of <=3 (quick) / <=5 (thorough) records x every cut into batches x every format legal for the version (message v0/v1 plain, compressed wrappers with absolute/relative offsets, LogAppendTime, record batches, compaction gaps, trailing control batch, mixed formats) x codecs x start offsets (oldest, newest, every literal, beyond the end) x fetch sizes at/around batch boundaries x 9 Kafka versions, run through the real partition consumer against an independently encoded log; fault/schedule layer: all executions with <=B deviations (fetch faults, slow reader ticks, subscribe/redispatch gates, leader move, append) on representative logs; oracle: delivered == reference slice of the log, field by field, plus progress.",
+         "simkafka serves byte ranges of an independently encoded log like a broker does; interleavings at answers/reads/ticks/gates only.", "§6 C03"),
+ "C11": (MC, GXT + " + bounded-exhaustive enumeration of transactional logs through the real consumer",
+         "Every well-formed transactional log of <=5 (quick) / <=6 (thorough) batches over {data A, data B, non-transactional data, commit/abort markers} x batches per fetch x every start offset x isolation level x every order of the aborted index x two protocol generations; plus fault/schedule layer with <=B deviations; oracle: read-committed delivers exactly committed+non-transactional records below the last stable offset, read-uncommitted all data records, control records never.",
+         "aborted index and last stable offset computed by simkafka as a faithful broker would.", "§6 C11"),
 }
 NOT_YET = {}
 props = [json.loads(l) for l in open(os.path.join(ROOT, "properties.jsonl"))]
